@@ -3,6 +3,7 @@
 # against the check of its property on /repo (applied, checked, reverted); one line per change.
 out="$1"; shift
 cd "$(dirname "$0")/.."
+export VERIF_EVIDENCE_DIR=/tmp/verif_evidence_seeded; mkdir -p $VERIF_EVIDENCE_DIR
 for d in "$@"; do
   [ -f "$d/patch.diff" ] || continue
   pid=$(python3 -c "import json,sys;print(json.load(open('$d/meta.json'))['property'])")
